@@ -69,6 +69,20 @@ def check_c04(case, ctx):
         if bad:
             fam = "TM" if kind.startswith("TM") else kind
             raise Violation(f"perm:{fam}:{gen.tie_shape(case['classes'])}", f"{kind} call={call}: {bad}")
+    # the team order as given, several re-listings of the players (a decision taken on a float team sum - a sort key, a tie-break - may
+    # depend on the order in which the members are added up; one drawn re-listing per case rarely flips it)
+    for pset in case.get("player_perm_sets", []):
+        t2 = [[teams[i][j] for j in pset[i]] for i in range(n)]
+        r2 = rate_values(cfg, t2, call, ctx)
+        back = [[None] * len(teams[i]) for i in range(n)]
+        for i in range(n):
+            for jj, j in enumerate(pset[i]):
+                back[i][j] = r2[i][jj]
+        w, bad = compare_equal(bud, base, back, cfg, teams, f"teams in the given order, players re-listed as {pset}")
+        worst = max(worst, w)
+        if bad:
+            fam = "TM" if kind.startswith("TM") else kind
+            raise Violation(f"players-relisted:{fam}:{gen.tie_shape(case['classes'])}", f"{kind} call={call}: {bad}")
     ctx.maxi(f"{kind}:diff/budget", worst)
     ctx.nontrivial_if(n >= 3 and used > 1)
     if any(pp != sorted(pp) for pp in pperm):
@@ -76,9 +90,33 @@ def check_c04(case, ctx):
 
 
 @st.composite
+def permuted_twin_games(draw):
+    """Teams whose members' mu values are the SAME decimal numbers in different orders (and independent sigmas): their totals are
+    mathematically equal while the float sums depend on the order of addition (24.1 + 25.2 + 26.3 != 26.3 + 25.2 + 24.1).  Biased to ties."""
+    cfg = draw(gen.configs())
+    beta = cfg["beta"]
+    n = draw(st.integers(2, 5))
+    k = draw(st.integers(3, 5))
+    unit = draw(st.sampled_from([0.1, 0.1, 0.01, 0.3])) * cfg["scale"]
+    base = [draw(st.integers(100, 400)) * unit for _ in range(k)]
+    teams = []
+    for i in range(n):
+        mus = list(draw(st.permutations(base))) if draw(st.integers(0, 4)) > 0 else [draw(st.integers(100, 400)) * unit for _ in range(k)]
+        teams.append([[max(-20 * beta, min(20 * beta, m)), 10.0 ** draw(st.floats(-1.5, 0.8)) * beta] for m in mus])
+    classes = draw(gen.weak_orders(n, shapes_=("all", "onetie", "onetie", "free", "free", "none")))
+    frag, enc = draw(gen.encodings(classes, kinds=["int", "float", "scores", "int_relabel"]))
+    call = dict(frag)
+    for o, v in draw(gen.call_options(cfg)).items():
+        if v is not None:
+            call[o] = v
+    return {"cfg": cfg, "teams": teams, "call": call, "classes": classes, "meta": {"regime": "permuted_twins", "enc": enc}}
+
+
+@st.composite
 def cases(draw):
-    g = draw(gen.games(max_teams=8, max_size=5))
+    g = draw(permuted_twin_games()) if draw(st.integers(0, 5)) == 0 else draw(gen.games(max_teams=8, max_size=5))
     n = len(g["teams"])
+    g["player_perm_sets"] = [[list(draw(st.permutations(list(range(len(t)))))) for t in g["teams"]] for _ in range(6)]
     g["player_perms"] = [list(draw(st.permutations(list(range(len(t)))))) for t in g["teams"]]
     g["team_perms"] = [list(draw(st.permutations(list(range(n))))) for _ in range(24)] if n > 5 else []
     return g
